@@ -1,6 +1,7 @@
 """C01 — inferred types admit every computed value (fragment F1, phase a).  DESIGN.md §5 C01."""
 import ast
 import json
+import os
 import warnings
 import subprocess
 import sys
@@ -317,11 +318,44 @@ def all_thresholds(p, limit=64):
   return [list(c) for _, c in zip(range(limit), combos)]
 
 
+# --- program pools ------------------------------------------------------------------------------------
+# Both random streams draw from fixed pools (batch b is a function of b alone; VERIF_SEED selects the batches).
+# Reason: on the unchanged tree random F1 programs hit a genuine unsoundness of pytype about once per ~1 500
+# programs (DESIGN.md §9.7) — a check that alarms on the unchanged tree under some seed is a broken check.  The
+# whole pool was swept (`python -m harness.c01 sweep-pool`); every failing pool program is listed in
+# known_findings.json under its own source text and skipped by K (and only it), W replays it.
+POOL_N = 50
+POOL_F1, POOL_X = 160, 120
+
+
+def pool_f1(b):
+  import random as _r
+  rng = _r.Random(0xC01000 + b)
+  return [gen_program(rng) for _ in range(POOL_F1)]
+
+
+def pool_x(b):
+  import random as _r
+  rng = _r.Random(0xC01F00 + b)
+  return [c01x.XGen(rng).gen() for _ in range(POOL_X)]
+
+
+def known_pool_sources():
+  known, _ = common.known_findings("C01")
+  return {e["witness"]["pool_source"] for e in known if "pool_source" in e.get("witness", {})}
+
+
 # --- stages -----------------------------------------------------------------------------------------
 def correspond(res, rng, tier):
   drv = common.ensure_driver("drv_c01")
-  n = 160 if tier == "quick" else 4000
-  progs = [gen_program(rng) for _ in range(n)]
+  nb = 1 if tier == "quick" else 25
+  skip = known_pool_sources()
+  fb = sorted(rng.sample(range(POOL_N), nb))
+  xb = sorted(rng.sample(range(POOL_N), nb))
+  progs = [p for b in fb for p in pool_f1(b)]
+  n_listed = sum(1 for p in progs if program_src(p) in skip)
+  progs = [p for p in progs if program_src(p) not in skip]
+  n = len(progs)
   results = vmpool.analyze_many([program_src(p) for p in progs])
   lines, meta = [], []
   stats = {"programs": n, "pytype_exception": 0, "pytype_errors": 0, "unsupported_annotations": 0, "names": 0,
@@ -358,9 +392,11 @@ def correspond(res, rng, tier):
         disagreements.append({"kind": "pytype-narrower-than-sound-lower-bound", "src": program_src(p), "name": name,
                               "pytype": types[name], "model_sem": ms, "model_rules": mt, "prog": p})
   # ---- stream 2 (exploration beyond the theorem's fragment; the property's own oracle, applied directly) ----
-  n2 = 120 if tier == "quick" else 1500
   fam = c01x.truthiness_family() + c01x.narrowing_family()   # deterministic families, always in full
-  xsrcs = fam + [c01x.XGen(rng).gen() for _ in range(n2)]
+  xpool = [x for b in xb for x in pool_x(b)]
+  n_listed += sum(1 for x in xpool if x in skip)
+  xsrcs = fam + [x for x in xpool if x not in skip]
+  n2 = len(xsrcs) - len(fam)
   xres = vmpool.analyze_many(xsrcs)
   xs = {"programs": len(xsrcs), "family_modules": len(fam), "ran_to_completion": 0, "values_checked": 0, "annotations_outside_oracle": 0,
         "unparsable_stub(C05)": 0, "pytype_exception(C15)": 0, "oracle_failures": 0}
@@ -384,6 +420,7 @@ def correspond(res, rng, tier):
     if c[1] > 3:
       nontrivial.add(src)
   stats["extended_stream"] = xs
+  stats["pool"] = {"size": POOL_N, "f1_batches": fb, "x_batches": xb, "listed_known_programs_skipped": n_listed}
   res.cov["evaluations"] = n + len(xsrcs)
   res.cov["distinct_nontrivial"] = len(nontrivial)
   res.cov["rule"] = ("seeded random F1 programs (assignments, nested if/else, displays, conditional/boolean expressions, "
@@ -497,6 +534,56 @@ def witnesses(res):
   res.cov["witnesses_replayed"] = replayed
 
 
+def sweep_pool(argv):
+  """python -m harness.c01 sweep-pool [lo hi]: every pool batch through K's two criteria on the current tree; prints
+  one JSON line per failing pool program (pool_source + a concrete failing run) for known_findings.json."""
+  import random as _r
+  lo, hi = [int(x) for x in (argv + ["0", str(POOL_N)])[:2]]
+  drv = common.ensure_driver("drv_c01")
+  out = []
+  for b in range(lo, hi):
+    progs = pool_f1(b)
+    results = vmpool.analyze_many([program_src(p) for p in progs])
+    lines, meta = [], []
+    for p, r in zip(progs, results):
+      if "exception" in r:
+        out.append({"batch": b, "kind": "f1", "pool_source": program_src(p), "what": "pytype raised " + r["exception"][:200]})
+        continue
+      types, _ = read_pyi(r["pyi"])
+      q = " ".join("%s %s" % (k, v) for k, v in sorted(types.items()))
+      lines.append(program_sx(p) + " ;; " + q)
+      meta.append((p, types, r))
+    for (p, types, r), o in zip(meta, drv.batch(lines)):
+      if not o.startswith("paths="):
+        continue
+      narrow = [it.split(":")[0] for it in o.partition(" ")[2].split(" | ") if it.split(":")[1] != "1"]
+      if narrow:
+        rec = {"batch": b, "kind": "f1", "pool_source": program_src(p), "names": narrow}
+        for th in all_thresholds(p):
+          bad = oracle_failures(p, types, th)
+          if bad:
+            rec["source"] = program_src(p, th)
+            rec["not_admitted"] = bad
+            break
+        out.append(rec)
+    xsrcs = pool_x(b)
+    for src, r in zip(xsrcs, vmpool.analyze_many(xsrcs)):
+      if "exception" in r:
+        continue
+      try:
+        c = c01x.check_program(src, r["pyi"])
+      except SyntaxError:
+        continue
+      if c and c[0]:
+        out.append({"batch": b, "kind": "x", "pool_source": src, "source": src, "not_admitted": c[0]})
+    print("batch", b, "failing so far", len(out), flush=True)
+  with open(os.path.join(common.BUILD, "c01-sweep-%d-%d.json" % (lo, hi)), "w") as fh:
+    json.dump(out, fh, indent=1)
+  for rec in out:
+    print(json.dumps({k: rec[k] for k in ("batch", "kind", "names", "not_admitted") if k in rec})[:300])
+  return 0
+
+
 def prepare():
   subprocess.check_call([common.PY, "translate/compat_table.py"], cwd=common.VERIF)
 
@@ -517,4 +604,7 @@ def main():
 
 
 if __name__ == "__main__":
+  if len(sys.argv) > 1 and sys.argv[1] == "sweep-pool":
+    prepare()
+    sys.exit(sweep_pool(sys.argv[2:]))
   sys.exit(main())
